@@ -118,7 +118,7 @@ void harness(void) {
     unsigned char buf[VS_CAP];
     for (int k = 0; k < VS_CAP; k++) { buf[k] = 0; vs.env_data[k] = ND_UCHAR(); }
     vs.env_mask = 1 << VS_ENV_DATA; vs.env_kind = VS_ENV_DATA; vs.env_fd = fd; vs.env_len = ND_RANGE(1, VS_CAP); vs_env_fire();
-    p_socket_set_blocking(S, ND_BOOL());
+    p_socket_set_blocking(S, nd_pbool(ND_BOOL()));
     pssize r = p_socket_receive_from(S, &from, (pchar *) buf, VS_CAP, &err);
     VASSERT(r == vs.env_len && err == NULL && same_bytes(buf, vs.env_data, (int) r), "the datagram is delivered even if the source address cannot be allocated");
     if (from == NULL) VASSERT(vm_failed > 0, "source address missing only when its allocation failed");
